@@ -8,6 +8,7 @@ From Coq Require Import List String ZArith NArith Bool Lia Permutation Sorted.
 From PintV Require Import Common.Bytes Common.Sorting Gen.Tables Model.Severity Model.SummarySort.
 From PintV Require Import Proofs.C11_order Proofs.C11_perm Proofs.C11_monitor.
 From PintV Require Proofs.C11_stable_sort.
+From PintV Require Import Model.ScanLTS Model.JobEnum Proofs.C11_lts Proofs.C11_jobs.
 Import ListNotations.
 Local Open Scope Z_scope.
 
@@ -28,6 +29,61 @@ Proof.
   intros s s' m d Hh1 Hh2 P. rewrite (process_perm_invariant s s' Hh1 Hh2 P). auto.
 Qed.
 Print Assumptions C11_perm_invariant.
+
+(** The arrival stream really is a permutation of the per-job report lists.  [Model/ScanLTS.v] is the channel
+    protocol of cmd/pint/scan.go as a transition system (producer goroutine -> jobs channel -> n scanWorker
+    goroutines -> results channel -> the main goroutine's `for result := range results`, the WaitGroup closing
+    results, both channels buffered with capacity cap); a path = one schedule.  For every job list, every number of
+    workers n >= 1, every capacity and EVERY path: once the main loop has ended, the arguments of summary.Report
+    are a permutation of the concatenated per-job lists (each report of each job delivered exactly once) ... *)
+Theorem C11_protocol_delivers_exactly_once : forall (J A : Type) (run : J -> list A) cap n js s,
+  (1 <= n)%nat -> reachable J A run cap (init J A n js) s -> done J A s = true ->
+  Permutation (summary J A s) (sequential J A run js).
+Proof. intros. now apply (delivered_exactly_once J A run cap n). Qed.
+Print Assumptions C11_protocol_delivers_exactly_once.
+
+(** ... no reachable state with the main loop still running is stuck (cap >= 1: workers*5 with --workers >= 1) ... *)
+Theorem C11_protocol_no_deadlock : forall (J A : Type) (run : J -> list A) cap n js s,
+  (1 <= cap)%nat -> reachable J A run cap (init J A n js) s -> done J A s = false -> exists s', step J A run cap s s'.
+Proof. intros. now apply (no_deadlock J A run cap n js). Qed.
+Print Assumptions C11_protocol_no_deadlock.
+
+(** ... and every path is finite (each transition lowers [measure] by one), so every maximal path ends with the
+    main loop finished and everything delivered. *)
+Theorem C11_protocol_terminates : forall (J A : Type) (run : J -> list A) cap n js k s,
+  (1 <= n)%nat -> (1 <= cap)%nat ->
+  steps J A run cap (init J A n js) k s -> (forall s', ~ step J A run cap s s') ->
+  done J A s = true /\ Permutation (summary J A s) (sequential J A run js) /\ (k <= measure J A run (init J A n js))%nat.
+Proof. intros J A run cap n js k s N C R M. exact (maximal_runs_deliver J A run cap n js k s N C R M). Qed.
+Print Assumptions C11_protocol_terminates.
+
+(** Results do not depend on worker count or scheduling, stated over runs of the protocol: two complete runs of
+    checkRules over the same jobs (entries x checks, a job's reports built by scanWorker's Report literal) with ANY
+    worker counts, capacities and schedules give the same [process]ed summary, hence the same JSON/console output,
+    provided the job-by-job stream satisfies H1 and H2. *)
+Theorem C11_runs_agree : forall (jobs : list job) n1 n2 cap1 cap2 k1 k2 s1 s2 min_sev show_dups,
+  (1 <= n1)%nat -> (1 <= n2)%nat -> (1 <= cap1)%nat -> (1 <= cap2)%nat ->
+  H1 (sequential job report run_job jobs) -> H2 (sequential job report run_job jobs) ->
+  steps job report run_job cap1 (init job report n1 jobs) k1 s1 -> (forall s', ~ step job report run_job cap1 s1 s') ->
+  steps job report run_job cap2 (init job report n2 jobs) k2 s2 -> (forall s', ~ step job report run_job cap2 s2 s') ->
+  process (summary job report s1) = process (summary job report s2) /\
+  render_json (process (summary job report s1)) = render_json (process (summary job report s2)) /\
+  render_console min_sev show_dups (process (summary job report s1)) =
+  render_console min_sev show_dups (process (summary job report s2)).
+Proof.
+  intros jobs n1 n2 c1 c2 k1 k2 s1 s2 m d N1 N2 C1 C2 Hh1 Hh2 R1 M1 R2 M2.
+  rewrite (runs_agree jobs n1 n2 c1 c2 k1 k2 s1 s2 N1 N2 C1 C2 Hh1 Hh2 R1 M1 R2 M2). auto.
+Qed.
+Print Assumptions C11_runs_agree.
+
+(** H2 is a consequence of two invariants of the job enumeration: (J-loc) problems reported for the same file and
+    line range come from entries that agree on symlink target, owner and rule identity; (J-diag) among problems
+    that tie on the whole sort key the diagnostics agree as sets of (columns, message, position).  Both are
+    statements about what checks answer (opaque here); H2 itself stays monitored on every recorded real stream. *)
+Theorem C11_H2_from_job_invariants : forall jobs : list job,
+  J_loc jobs -> J_diag jobs -> H2 (sequential job report run_job jobs).
+Proof. exact H2_from_job_invariants. Qed.
+Print Assumptions C11_H2_from_job_invariants.
 
 (** The sort itself: on pairwise distinct elements on which the comparator is transitive and total, the modelled
     slices.SortStableFunc returns a strictly sorted permutation (any length, any element type). *)
@@ -60,8 +116,8 @@ Theorem C11_monitors_sound : forall s, (h1b s = true -> H1 s) /\ (h2b s = true -
 Proof. intros s. split; [apply h1b_sound|apply h2b_sound]. Qed.
 Print Assumptions C11_monitors_sound.
 
-(** H1's symmetry part, for the code as it is after fix 980af37: isEqual is symmetric whenever the
-    diagnostics of the right-hand report carry no repeated (columns, message) triple ... *)
+(** H1's symmetry part, for the code as it is after fixes 980af37 and 1588b37: isEqual is symmetric whenever the
+    diagnostics of the right-hand report carry no repeated (columns, message, position) tuple ... *)
 Theorem C11_is_equal_symmetric_partial : forall a b,
   NoDup (map triple (r_diags b)) -> is_equal a b = true -> is_equal b a = true.
 Proof. exact is_equal_sym_nodup. Qed.
@@ -94,6 +150,28 @@ Proof.
     split; [apply perm_swap|]. vm_compute. discriminate.
 Qed.
 Print Assumptions C11_perm_invariant_unconditional_refuted.
+
+(** Since fix 1588b37 equality reads the position of every diagnostic: reports that isEqual equates carry the same
+    set of (columns, message, Pos) tuples, so folding can no longer merge problems that point at different places
+    (before the fix the pair below was folded into one report and the surviving caret depended on the schedule:
+    corpus/C11/pos-tie, replayed as a real scenario on every run). *)
+Theorem C11_is_equal_reads_position : forall a b,
+  is_equal a b = true ->
+  incl (map triple (r_diags b)) (map triple (r_diags a)) /\ List.length (r_diags b) = List.length (r_diags a).
+Proof.
+  intros a b E. unfold is_equal in E. rewrite !andb_true_iff in E.
+  destruct E as [[_ E] _]. apply is_same_diags_incl in E. tauto.
+Qed.
+Print Assumptions C11_is_equal_reads_position.
+
+Definition dpos (k : N) := {| dg_msg := "`k.*` label value must match `^good$`."; dg_first := 1; dg_last := 3; dg_extra := k |}.
+Example C11_position_regression :
+  let a := ex_report "" "" [dpos 0] in let b := ex_report "" "" [dpos 1] in
+  is_equal a b = false /\ h1b [a; b] = true /\ h2b [a; b] = true /\
+  process [a; b] = process [b; a] /\ List.length (process [a; b]) = 2%nat /\
+  map entry_diag_order (process [b; a; b; a]) = [[0%N]; [1%N]].
+Proof. vm_compute. repeat split; reflexivity. Qed.
+Print Assumptions C11_position_regression.
 
 (** Non-vacuity: the design-session tie (two label blocks differing only in comment => reports differing only
     in Details, each arriving once per rule, here twice) satisfies H1 and H2; both texts are kept, in one order. *)
